@@ -5,7 +5,7 @@ Require Import Base.Wire Base.PyStr C14.Model C14.Lemmas C14.Dispatch C14.Trace.
 Local Open Scope N_scope.
 
 (* every command replies the empty string and is logged *)
-Definition final0 : list str -> finalres := fun _ => FinalRes (Some ([], [], [])) false (SVal (Some [])).
+Definition final0 : list str -> finalres := fun _ => FinalRes (Some ([], [], [])) false false (SVal (Some [])).
 Definition K_small := Config 10 1 (SStop OStall).       (* stack room for the root proxy only *)
 Definition K_ok := Config 10 5 (SStop OStall).
 Definition t1 : list arg := [AStr [97]; ASub [AStr [97]]].            (* a [a] *)
@@ -102,7 +102,7 @@ Proof. split; vm_compute; reflexivity. Qed.
 
 (* ---- a 3-level tree:  a [b [c 1] [d]] [e]  ; every command replies its own name followed by "!" ---- *)
 Definition final_name : list str -> finalres :=
-  fun strs => FinalRes (Some ([], [hd [] strs], tl strs)) false (SVal (Some (hd [] strs ++ [33]))).
+  fun strs => FinalRes (Some ([], [hd [] strs], tl strs)) false false (SVal (Some (hd [] strs ++ [33]))).
 Definition t_three : list arg :=
   [AStr [97]; ASub [AStr [98]; ASub [AStr [99]; AStr [49]]; ASub [AStr [100]]]; ASub [AStr [101]]].
 
@@ -118,9 +118,36 @@ Proof. repeat split; vm_compute; reflexivity. Qed.
 
 (* a stop in the middle: d calls irc.error; the trace is the post-order prefix up to d *)
 Definition final_err_d : list str -> finalres :=
-  fun strs => if seq_eqb (hd [] strs) [100] then FinalRes (Some ([], [[100]], [])) false (SStop (OError [100]))
+  fun strs => if seq_eqb (hd [] strs) [100] then FinalRes (Some ([], [[100]], [])) false false (SStop (OError [100]))
               else final_name strs.
 Example trace_stops :
   map fst (trace final_err_d K_ok t_three) = [[1; 1]; [1; 2]]%nat /\
   snd (trace_res final_err_d K_ok t_three) = SStop (OError [100]).
 Proof. split; vm_compute; reflexivity. Qed.
+
+(* ---- `e [i] [e foo] bar`: i tags the message 'ignored' and calls noReply (Utilities.ignore); e echoes.
+   tr = a command that tags AND replies: its reply is dropped as well ---- *)
+Definition s_foo : str := [102; 111; 111].  Definition s_bar : str := [98; 97; 114].
+Definition final_ign : list str -> finalres :=
+  fun strs =>
+    if seq_eqb (hd [] strs) [105] then FinalRes (Some ([], [[105]], tl strs)) false true (SVal None)
+    else if seq_eqb (hd [] strs) [116] then FinalRes (Some ([], [[116]], tl strs)) false true (SVal (Some [120]))
+    else FinalRes (Some ([], [[101]], tl strs)) false false (SVal (Some (join [32] (tl strs)))).
+Definition t_ign : list arg := [AStr [101]; ASub [AStr [105]]; ASub [AStr [101]; AStr s_foo]; AStr s_bar].
+Definition t_ign_mid : list arg :=
+  [AStr [101]; ASub [AStr [101]; AStr s_foo]; ASub [AStr [105]]; ASub [AStr [116]]; ASub [AStr [101]; AStr s_bar; ASub [AStr [105]]]].
+
+Example ignore_then_reply :
+  machine final_ign K_ok t_ign =
+    Done [Call [] [[105]] [] false; Call [] [[101]] [s_foo] false; Call [] [[101]] [s_foo; s_bar] false]
+         (OReply (s_foo ++ [32] ++ s_bar)) /\
+  map (contributes final_ign K_ok 0) t_ign = [[[101]]; []; [s_foo]; [s_bar]].
+Proof. split; vm_compute; reflexivity. Qed.
+
+Definition K_big := Config 10 20 (SStop OStall).
+Example ignore_between_and_nested :
+  machine final_ign K_big t_ign_mid =
+    Done [Call [] [[101]] [s_foo] false; Call [] [[105]] [] false; Call [] [[116]] [] false; Call [] [[105]] [] false;
+          Call [] [[101]] [s_bar] false; Call [] [[101]] [s_foo; s_bar] false]
+         (OReply (s_foo ++ [32] ++ s_bar)).
+Proof. vm_compute; reflexivity. Qed.
